@@ -33,6 +33,7 @@ PosDom == (0..(MaxLen + 1)) \cup {BIG}
 PosSeq == [i \in 1..(MaxLen + 3) |-> IF i = MaxLen + 3 THEN BIG ELSE i - 1]   \* PosDom in order
 Min(x, y) == IF x < y THEN x ELSE y
 
+NWit == 5          \* number of witness conditions (section "behaviour export")
 VARIABLES a, b, c, hist
 vars == <<a, b, c, hist>>
 
@@ -81,6 +82,7 @@ Rec(op, pos, n, thr) ==
 
 Init == /\ a \in Str /\ b \in {s \in Str : Len(s) <= BLen}
         /\ c \in (IF Laws THEN Str ELSE {<<>>})
+        /\ \A i \in 1..NWit : TLCSet(i, 0)
         /\ hist = IF Hist THEN <<[op |-> "init", pos |-> 0, n |-> 0, throws |-> "F", exp |-> Obs(a, b)]>> ELSE <<>>
 
 SubstrA(pos, n) ==
@@ -127,9 +129,14 @@ Property == CmpAntisym /\ CmpPrefix /\ CmpTrans /\ CmpFirstDiff /\ FindSound /\ 
 \* hist[1] is the "init" entry (the initial pair and its projection); Depth counts the operations
 EmitAll == (Hist /\ Len(hist) = Depth + 1) => PrintT(<<"BEH", ToJson([steps |-> hist])>>)
 Last == hist[Len(hist)]
-Wit(w) == (Hist /\ Len(hist) > 1 /\ w) => (PrintT(<<"BEH", ToJson([steps |-> hist])>>) /\ FALSE)
-WitThrowAtEndPlus1 == Wit(Last.op = "substr" /\ Last.throws = "T" /\ Last.pos = Len(a) + 1 /\ Len(a) = MaxLen)
-WitSubstrAtEnd     == Wit(Last.op = "substr" /\ Last.throws = "F" /\ Last.pos = MaxLen /\ Len(hist) = 2)
-WitNulInside       == Wit(Last.op = "substr" /\ Len(a) = 2 /\ a[1] = 0 /\ a[2] # 0 /\ Len(hist) = 3)
-WitEmptyOfEmpty    == Wit(Last.op = "substr" /\ Last.throws = "F" /\ Len(hist) = 3 /\ hist[2].exp.size = 0 /\ Last.pos = 0 /\ Last.n = BIG)
+HasLast == Hist /\ Len(hist) > 1
+\* rare conditions that must be in the replay set of every run: each is reported once (per worker)
+\* from the path-enumeration run itself; the check is broken if one of them is never reported
+Wits == <<
+  <<"ThrowAtEndPlus1", HasLast /\ Last.op = "substr" /\ Last.throws = "T" /\ Last.pos = Len(a) + 1 /\ Len(a) = MaxLen>>,
+  <<"SubstrAtEnd", HasLast /\ Last.op = "substr" /\ Last.throws = "F" /\ Last.pos = MaxLen /\ Len(hist) = 2>>,
+  <<"NulFirstInWindow", HasLast /\ Last.op = "substr" /\ Last.pos >= 1 /\ Len(a) = 2 /\ a[1] = 0 /\ a[2] # 0>>,
+  <<"WholeOfEmpty", HasLast /\ Last.op = "substr" /\ Last.throws = "F" /\ hist[Len(hist) - 1].exp.size = 0 /\ Last.pos = 0 /\ Last.n = BIG>>,
+  <<"BigPosThrows", HasLast /\ Last.op = "substr" /\ Last.throws = "T" /\ Last.pos = BIG>> >>
+WitAll == \A i \in 1..NWit : (Wits[i][2] /\ TLCGet(i) = 0) => (PrintT(<<"WIT", Wits[i][1]>>) /\ TLCSet(i, 1))
 =============================================================================
